@@ -1437,8 +1437,7 @@ func (m *Model) runPattern(rules []*Rule, root *Slot) (exit bool) {
 					return true
 				}
 				if sig == sigNext {
-					m.tag("pinned:next-in-pattern")
-					return false
+					return false // next abandons the remaining rules for this element, wherever it is executed
 				}
 				if sig != sigNone {
 					m.tag("pinned:signal-escaped")
